@@ -146,6 +146,15 @@ Definition d_optb (t : tree) : option (option (list N)) :=
   match t with TL [TN 0] => Some None | TL [TN 1; TB b] => Some (Some b) | _ => None end.
 
 (* ---------- steps ---------- *)
+Fixpoint fill_entries (es : list (option token_entry)) (i count base : N) (a : addr) : list (option token_entry) :=
+  match es with
+  | [] => []
+  | e :: t =>
+      (if i <? count
+       then Some {| te_time := base + i; te_addr := a; te_mac := le64 i ++ repeat 0 (N.to_nat (NC_MAC_BYTES - 8)) |}
+       else e) :: fill_entries t (i + 1) count base a
+  end.
+
 Definition on_nserver (w : nworld) (f : nserver -> nres (nserver * tree)) : nworld * tree :=
   match nw_server w with
   | None => (w, T_UNRESOLVED)
@@ -243,6 +252,12 @@ Definition nstep (w : nworld) (op : tree) : nworld * tree :=
       on_nserver w (fun s => let (s', r) := generate_payload_packet s id payload in
                              match r with Panic p => Panic p | _ => Ok (s', t_nres (fun ab => TL [t_addr (fst ab); TB (snd ab)]) r) end)
   | TL [TN 115; TN m] => on_nserver w (fun s => Ok (set_max_clients s m, TL []))
+  (* verification hook: the first `count` slots of the connect token table hold synthetic entries *)
+  | TL [TN 129; TN count; TN base; a] =>
+      match d_addr a with
+      | Some sa => on_nserver w (fun s => Ok (set_entries s (fill_entries (ns_entries s) 0 count base sa), TL []))
+      | None => (w, T_BAD_OP)
+      end
   | TL [TN 116] => on_nserver w (fun s => Ok (s, t_server_state s))
   | TL [TN 119; TN id] =>
       on_nserver w (fun s => do t <- NServer.time_since_last_received s id;
